@@ -384,6 +384,51 @@ func simpleInterest(name string) []byte {
 	return c13.TLV(5, append(n, c13.TLV(0x0a, []byte{1, 2, 3, 4})...))
 }
 
+// namedInterest / namedData: packets whose name is the given sequence of generic components
+func nameOf(comps []string) []byte {
+	var inner []byte
+	for _, c := range comps {
+		inner = append(inner, c13.TLV(8, []byte(c))...)
+	}
+	return c13.TLV(7, inner)
+}
+
+func namedInterest(comps []string) []byte {
+	return c13.TLV(5, append(nameOf(comps), c13.TLV(0x0a, []byte{1, 2, 3, 4})...))
+}
+
+func namedData(comps []string) []byte {
+	body := append(nameOf(comps), c13.TLV(0x15, []byte("x"))...)
+	body = append(body, c13.TLV(0x16, c13.TLV(0x1b, []byte{0}))...)
+	body = append(body, c13.TLV(0x17, []byte{})...)
+	return c13.TLV(6, body)
+}
+
+// specialNames: the names the dispatch to forwarding threads looks INTO (scope prefixes, management): every
+// sequence of 0..3 components over this alphabet, the short ones first (a name that IS a scope prefix and nothing
+// else, the empty name, an empty component)
+var specialAlphabet = []string{"localhost", "localhop", "nfd", "a", ""}
+
+func specialNames() [][]string {
+	out := [][]string{{}}
+	for _, a := range specialAlphabet {
+		out = append(out, []string{a})
+	}
+	for _, a := range specialAlphabet {
+		for _, b := range specialAlphabet {
+			out = append(out, []string{a, b})
+		}
+	}
+	for _, a := range specialAlphabet {
+		for _, b := range specialAlphabet {
+			for _, c := range specialAlphabet {
+				out = append(out, []string{a, b, c})
+			}
+		}
+	}
+	return out
+}
+
 func simpleData(name string, content []byte) []byte {
 	n := c13.TLV(7, c13.TLV(8, []byte(name)))
 	body := append(n, c13.TLV(0x15, content)...)
@@ -427,6 +472,20 @@ func genLink(g *common.Gen, packets [][]byte) {
 		g.Op("new link %d %d", nThreads, map[bool]int{false: 0, true: 1}[reasm])
 		g.Stat("link-history")
 		inner := [][]byte{simpleInterest("a"), simpleInterest("ndn"), simpleData("a", []byte("hello")), simpleData("b", r.Bytes(40))}
+		// names the dispatch looks into: all 31 names of at most two components over the special alphabet in a
+		// rotating window of 8 per history, plus 4 random three-component ones (Interest and token-less Data)
+		sn := specialNames()
+		for j := 0; j < 8; j++ {
+			nm := sn[(h*8+j)%31]
+			inner = append(inner, namedInterest(nm), namedData(nm))
+			g.Op("frame %s", common.Hex(namedInterest(nm)))
+			g.Op("frame %s", common.Hex(lpFrame(nil, nil, nil, nil, namedData(nm))))
+			g.Stat("link-special-name")
+		}
+		for j := 0; j < 4; j++ {
+			nm := sn[31+r.Intn(len(sn)-31)]
+			inner = append(inner, namedInterest(nm), namedData(nm))
+		}
 		// a rotating window over the minimal / generated packets (Interest or Data at the top level)
 		var cand [][]byte
 		for _, pk := range packets {
